@@ -1760,4 +1760,395 @@ Section WInv.
       split; [eapply IX_same; [..|exact X]; reflexivity|].
       split; [eapply GL_frame; [..|exact G]; reflexivity|auto].
   Qed.
+
+  (* ---------------------------------------------------------------- phases only move forward *)
+  Definition rankN (p : phase) : N :=
+    match p with
+    | PNew => 0 | PAcquiring => 1 | PAssigned => 2 | PAcqClosed => 3
+    | PAwaiting => 4 | PClosing => 5 | PDone => 6 | PGone => 7 end.
+  Lemma rankN_inj p q : rankN p = rankN q -> p = q.
+  Proof. destruct p, q; cbn; intro H; try reflexivity; discriminate. Qed.
+
+  Definition PM s s' : Prop :=
+    length (calls s') = length (calls s) /\
+    forall j k k', nth_error (calls s) j = Some k -> nth_error (calls s') j = Some k' ->
+                   rankN (c_phase k) <= rankN (c_phase k').
+  Lemma PM_refl s : PM s s.
+  Proof. split; [reflexivity|]. intros j k k' H1 H2. rewrite H1 in H2. injection H2 as <-. lia. Qed.
+  Lemma PM_eq s s' : calls s' = calls s -> PM s s'.
+  Proof. intro E. unfold PM. rewrite E. apply PM_refl. Qed.
+  Lemma PM_trans s1 s2 s3 : PM s1 s2 -> PM s2 s3 -> PM s1 s3.
+  Proof.
+    intros [L1 H1] [L2 H2]. split; [congruence|]. intros j k k'' E1 E3.
+    destruct (nth_error (calls s2) j) as [k'|] eqn:E2.
+    - pose proof (H1 _ _ _ E1 E2). pose proof (H2 _ _ _ E2 E3). lia.
+    - exfalso. apply nth_error_None in E2. assert (nth_error (calls s1) j <> None) by congruence.
+      apply nth_error_Some in H. lia.
+  Qed.
+  Lemma PM_set_phase s i p :
+    (forall k, nth_error (calls s) i = Some k -> rankN (c_phase k) <= rankN p) -> PM s (set_phase s i p).
+  Proof.
+    intro H. split; [apply sp_length|]. intros j k k' E1 E2.
+    destruct (nth_set_phase_inv _ _ _ _ _ E2) as (k0 & E0 & _ & [[_ ->]|[-> Hp]]).
+    - rewrite E1 in E0. injection E0 as <-. lia.
+    - rewrite Hp. apply H, E1.
+  Qed.
+
+  Lemma PM_release_permit d s : GW d s -> PM s (release_permit s).
+  Proof.
+    intro W. unfold release_permit. destruct (waiters s) as [|w r] eqn:Ew; [apply PM_eq; reflexivity|].
+    destruct (w_acq _ _ W w) as (k & Ek & Ep); [rewrite Ew; left; reflexivity|].
+    eapply PM_trans; [apply (PM_eq s (upd_q s (permits s) (queue s) r (rx_closed s))); reflexivity|].
+    apply PM_set_phase. cbn [calls upd_q]. intros k' Ek'. rewrite Ek in Ek'. injection Ek' as <-.
+    rewrite Ep. cbn. lia.
+  Qed.
+
+  Lemma PM_q_poll_recv s r s' : q_poll_recv s = (r, s') -> IX s -> PM s s'.
+  Proof.
+    intros H X. destruct r as [q| |];
+      try (destruct (q_poll_recv_other _ _ _ H) as [-> _]; [discriminate|apply PM_refl]).
+    destruct (q_poll_recv_some _ _ _ H) as (rest & Eq & ->).
+    eapply PM_trans; [apply (PM_eq s (upd_q s (permits s) rest (waiters s) (rx_closed s))); reflexivity|].
+    apply (PM_release_permit 1). destruct (ix_w _ X) as [W1 W2 W3 W4 W5 W6]. constructor; try assumption.
+    cbn [rx_closed queue permits calls q_cap upd_q]. intro Hc. specialize (W6 Hc).
+    rewrite Eq in W6. cbn [length] in W6. lia.
+  Qed.
+
+  Lemma PM_next_request_loop f : forall s r s', next_request_loop f s = (r, s') -> IX s -> PM s s'.
+  Proof.
+    induction f as [|f IH]; intros s r s' H X; cbn [next_request_loop] in H.
+    - injection H as _ <-. apply PM_refl.
+    - destruct (q_poll_recv s) as [x s1] eqn:E.
+      pose proof (IX_q_poll_recv _ _ _ E X) as X1. pose proof (PM_q_poll_recv _ _ _ E X) as P1.
+      destruct x as [q| |]; try (injection H as _ <-; exact P1).
+      destruct (sl_rx_closed _); [|injection H as _ <-; exact P1].
+      eapply PM_trans; [exact P1|]. eapply PM_trans; [|eapply IH; [exact H|apply IX_slot_tx_drop, X1]].
+      apply PM_eq. reflexivity.
+  Qed.
+
+  Lemma PM_drain_loop f a : forall s b s', drain_loop f a s = (b, s') -> IX s -> PM s s'.
+  Proof.
+    induction f as [|f IH]; intros s b s' H X; cbn [drain_loop] in H.
+    - injection H as _ <-. apply PM_refl.
+    - destruct (q_poll_recv s) as [x s1] eqn:E.
+      pose proof (IX_q_poll_recv _ _ _ E X) as X1. pose proof (PM_q_poll_recv _ _ _ E X) as P1.
+      destruct x as [q| |]; try (injection H as _ <-; exact P1).
+      eapply PM_trans; [exact P1|]. eapply PM_trans; [|eapply IH; [exact H|apply IX_slot_send, X1]].
+      apply PM_eq, calls_slot_send.
+  Qed.
+
+  Lemma PM_q_close s : IX s -> PM s (q_close s).
+  Proof.
+    intro X. unfold q_close. destruct (rx_closed s); [apply PM_refl|].
+    split; [cbn [calls upd_q]; apply fold_sp_length|]. cbn [calls upd_q]. intros j k k' E1 E2.
+    destruct (fold_sp_nth _ _ _ _ _ E2) as (k0 & E0 & _ & [[_ ->]|[Hin Hp]]).
+    - rewrite E1 in E0. injection E0 as <-. lia.
+    - destruct (w_acq _ _ (ix_w _ X) j Hin) as (k1 & Ek1 & Ep1). rewrite E1 in Ek1. injection Ek1 as <-.
+      rewrite Ep1, Hp. cbn. lia.
+  Qed.
+
+  Lemma PM_shut_down s a b s' : shut_down s a = (b, s') -> IX s -> PM s s'.
+  Proof.
+    unfold shut_down. intros H X.
+    pose proof (TFrame_complete_all (q_close s) (OConnErr a)) as F.
+    eapply PM_trans; [apply PM_q_close, X|]. eapply PM_trans; [apply PM_eq, (tf_calls _ _ F)|].
+    eapply PM_drain_loop; [exact H|]. eapply IX_TFrame; [exact F|apply IX_q_close, X].
+  Qed.
+
+  Lemma PM_X s s' : XFrame s s' -> PM s s'.
+  Proof. intro F. apply PM_eq, F. Qed.
+  Lemma PM_T s s' : TFrame s s' -> PM s s'.
+  Proof. intro F. apply PM_eq, F. Qed.
+
+  Lemma PM_poll_write_request s r s' : poll_write_request tp s = (r, s') -> DI s -> PM s s'.
+  Proof.
+    intros H D. apply poll_write_request_inv in H.
+    destruct H as [_|r s1 _ H1 Hr|r s1 s2 _ H1 H2 Hr|s1 q s2 w s3 L H1 H2 H3].
+    - apply PM_refl.
+    - apply PM_X. eapply XFrame_ensure_writeable, H1.
+    - pose proof (XFrame_ensure_writeable _ _ _ _ H1) as F1.
+      eapply PM_trans; [apply PM_X, F1|]. eapply PM_next_request_loop; [exact H2|].
+      eapply IX_XFrame; [exact F1|apply D].
+    - pose proof (XFrame_ensure_writeable _ _ _ _ H1) as F1.
+      eapply PM_trans; [apply PM_X, F1|].
+      eapply PM_trans; [eapply PM_next_request_loop; [exact H2|eapply IX_XFrame; [exact F1|apply D]]|].
+      eapply PM_trans; [apply PM_T, TFrame_insert_request|].
+      eapply PM_trans; [apply PM_X; eapply XFrame_do_send, H3|].
+      destruct w; [apply PM_refl|apply PM_T, TFrame_complete_request].
+  Qed.
+
+  Lemma PM_poll_write_cancel s r s' : poll_write_cancel tp s = (r, s') -> PM s s'.
+  Proof.
+    intro H. apply poll_write_cancel_inv in H.
+    destruct H as [r s1 H1 Hr|r s1 s2 H1 H2 Hr|s1 id e s2 w s3 H1 H2 H3];
+      (eapply PM_trans; [apply PM_X; eapply XFrame_ensure_writeable, H1|]); try apply PM_refl.
+    - pose proof (CFrame_next_cancel_loop (S (length (cancels s1))) s1) as F. rewrite H2 in F.
+      apply PM_eq, F.
+    - pose proof (CFrame_next_cancel_loop (S (length (cancels s1))) s1) as F. rewrite H2 in F.
+      eapply PM_trans; [apply PM_eq, F|]. apply PM_X. eapply XFrame_do_send, H3.
+  Qed.
+
+  Lemma PM_pump_write s r s' : pump_write tp s = (r, s') -> DI s -> PM s s'.
+  Proof.
+    intros H D. apply pump_write_inv in H.
+    destruct H as [a s1 H1|u s1 H1|r1 s1 a s2 H1 I1 H2|r1 s1 u s2 H1 I1 H2
+                  |r1 s1 r2 s2 id s3 H1 I1 H2 I2 H3|s1 s2 s3 x s4 H1 H2 H3 H4
+                  |r1 s1 r2 s2 s3 x s4 H1 I1 H2 I2 I12 H3 H4];
+      pose proof (PM_poll_write_request _ _ _ H1 D) as P1; try exact P1;
+      pose proof (PM_poll_write_cancel _ _ _ H2) as P2;
+      try (eapply PM_trans; eassumption);
+      pose proof (PM_T _ _ (TFrame_poll_expired s2)) as P3; rewrite H3 in P3; cbn [snd] in P3.
+    - eapply PM_trans; [exact P1|]. eapply PM_trans; eassumption.
+    - eapply PM_trans; [exact P1|]. eapply PM_trans; [exact P2|]. eapply PM_trans; [exact P3|].
+      apply PM_X. eapply XFrame_do_close, H4.
+    - eapply PM_trans; [exact P1|]. eapply PM_trans; [exact P2|]. eapply PM_trans; [exact P3|].
+      apply PM_X. eapply XFrame_do_flush, H4.
+  Qed.
+
+  Lemma PM_pump_read s r s' : pump_read tp s = (r, s') -> PM s s'.
+  Proof.
+    intro H. apply pump_read_inv in H. destruct H as (x & s1 & H1 & -> & ->).
+    eapply PM_trans; [apply PM_X; eapply XFrame_do_next, H1|].
+    destruct x; try apply PM_refl. apply PM_T, TFrame_complete.
+  Qed.
+
+  Lemma PM_run_loop f : forall s r s', run_loop tp f s = (r, s') -> DI s -> PM s s'.
+  Proof.
+    induction f as [|f IH]; intros s r s' H D; [cbn in H; injection H as _ <-; apply PM_refl|].
+    apply run_loop_inv in H.
+    destruct H as [a s1 H1|rd s1 a s2 H1 N1 H2|s1 wr s2 H1 H2 N2|rd s1 s2 H1 D1 H2 L2
+                  |s1 wr s2 H1 H2 D2|rd s1 wr s2 r s3 H1 H2 D' H3];
+      pose proof (PM_pump_read _ _ _ H1) as P1; try exact P1;
+      destruct (DI_pump_read _ _ _ H1 D) as [E1 _];
+      pose proof (PM_pump_write _ _ _ H2 E1) as P2; try (eapply PM_trans; eassumption).
+    destruct (DI_pump_write _ _ _ H2 E1) as [E2 _].
+    eapply PM_trans; [exact P1|]. eapply PM_trans; [exact P2|]. eapply IH; eassumption.
+  Qed.
+
+  Lemma PM_poll_dispatch fuel s r s1 : poll_dispatch tp fuel s = (r, s1) -> DI s -> PM s s1.
+  Proof.
+    unfold poll_dispatch. intros H D. destruct (terminal s) as [a|].
+    - destruct (shut_down s a) as [b s'] eqn:Es. pose proof (PM_shut_down _ _ _ _ Es (di_x _ D)) as P.
+      destruct b; injection H as _ <-; exact P.
+    - destruct (run_loop tp fuel s) as [rr s'] eqn:Er.
+      pose proof (PM_run_loop _ _ _ _ Er D) as P. destruct (DI_run_loop _ _ _ _ Er D) as [D1 _].
+      destruct rr as [|a| |]; try (injection H as _ <-; exact P).
+      destruct (shut_down (upd_term s' (Some a)) a) as [b s3] eqn:Es.
+      assert (D2 : DI (upd_term s' (Some a))) by (eapply DI_same; [..|exact D1]; reflexivity).
+      pose proof (PM_shut_down _ _ _ _ Es (di_x _ D2)) as P2.
+      assert (P3 : PM s s3).
+      { eapply PM_trans; [exact P|]. eapply PM_trans; [|exact P2]. apply PM_eq. reflexivity. }
+      destruct b; injection H as _ <-; exact P3.
+  Qed.
+
+  (* ---------------------------------------------------------------- the shape of a call poll *)
+  Definition SN s s' (i : nat) (k' : call) : Prop := calls s' = set_nth i k' (calls s).
+  Lemma SN_set_phase s i p k : nth_error (calls s) i = Some k -> SN s (set_phase s i p) i (with_phase k p).
+  Proof. intro E. unfold SN. rewrite sp_calls, E. reflexivity. Qed.
+  Lemma SN_trans s s1 s2 i k1 k2 : SN s s1 i k1 -> SN s1 s2 i k2 -> SN s s2 i k2.
+  Proof. unfold SN. intros -> ->. apply set_nth_twice. Qed.
+  Lemma SN_nth s s' i k k' : nth_error (calls s) i = Some k -> SN s s' i k' -> nth_error (calls s') i = Some k'.
+  Proof. unfold SN. intros E ->. rewrite nth_set_nth, Nat.eqb_refl, E. reflexivity. Qed.
+  Lemma SN_frame s s1 s2 i k' : calls s1 = calls s -> SN s1 s2 i k' -> SN s s2 i k'.
+  Proof. unfold SN. intros <- H. exact H. Qed.
+
+  Lemma poll_slot_shape s i id k :
+    nth_error (calls s) i = Some k ->
+    (poll_slot s i id = (CPending, s) /\ sl_val (get_slot s id) = None /\ sl_tx_gone (get_slot s id) = false)
+    \/ SN s (snd (poll_slot s i id)) i (with_phase k PDone).
+  Proof.
+    intro E. unfold poll_slot. destruct (sl_val (get_slot s id)) eqn:Ev; cbn [snd].
+    - right. eapply SN_frame; [|apply SN_set_phase; exact E]. reflexivity.
+    - destruct (sl_tx_gone (get_slot s id)) eqn:Et; cbn [snd]; [|left; auto].
+      right. eapply SN_frame; [|apply SN_set_phase; exact E]. reflexivity.
+  Qed.
+
+  Lemma enqueue_shape s i c id tc k :
+    nth_error (calls s) i = Some k -> rankN (c_phase k) < 4 ->
+    exists k', SN s (snd (enqueue s i c id tc)) i k' /\ rankN (c_phase k) < rankN (c_phase k').
+  Proof.
+    intros E Hr. rewrite enqueue_eq.
+    assert (S1 : SN s (enq_state s i c id tc) i (with_phase k PAwaiting)).
+    { unfold enq_state. eapply SN_frame; [|apply SN_set_phase; exact E]. reflexivity. }
+    pose proof (SN_nth _ _ _ _ _ E S1) as E1.
+    destruct (poll_slot_shape (enq_state s i c id tc) i id _ E1) as [(H & _)|H].
+    - rewrite H. cbn [snd]. eexists. split; [exact S1|]. cbn. exact Hr.
+    - eexists. split; [eapply SN_trans; eassumption|]. cbn. lia.
+  Qed.
+
+  Lemma fail_shutdown_shape s i id k :
+    nth_error (calls s) i = Some k -> SN s (snd (fail_shutdown s i id)) i (with_phase k PDone).
+  Proof.
+    intro E. rewrite fail_shutdown_eq. cbn [snd]. eapply SN_frame; [apply fsp_calls|].
+    apply SN_set_phase. rewrite fsp_calls. exact E.
+  Qed.
+
+  Lemma poll_call_shape s i c :
+    nth_error (calls s) i = Some c ->
+    (poll_call s i = (CPending, s) /\
+     (c_phase c = PAcquiring \/
+      (c_phase c = PAwaiting /\ sl_val (get_slot s (c_id c)) = None /\ sl_tx_gone (get_slot s (c_id c)) = false)))
+    \/ (poll_call s i = (CNothing, s) /\ is_live (c_phase c) = false)
+    \/ (exists k', SN s (snd (poll_call s i)) i k' /\ rankN (c_phase c) < rankN (c_phase k')).
+  Proof.
+    intro Ec. destruct (c_phase c) eqn:Hp.
+    - (* PNew *)
+      right; right. rewrite (poll_call_new s i c Ec Hp). cbv zeta.
+      set (s1 := fp_state s i c). set (id := next_id s).
+      assert (S1 : SN s s1 i (with_cid c id)) by reflexivity.
+      pose proof (SN_nth _ _ _ _ _ Ec S1) as E1.
+      assert (R1 : rankN (c_phase (with_cid c id)) = 0) by (cbn; rewrite Hp; reflexivity).
+      destruct (rx_closed s1).
+      + eexists. split; [eapply SN_trans; [exact S1|apply fail_shutdown_shape, E1]|]. cbn. lia.
+      + destruct (permits s1) as [|p].
+        * cbn [snd]. eexists. split.
+          -- eapply SN_trans; [exact S1|]. eapply SN_frame; [|apply SN_set_phase; exact E1]. reflexivity.
+          -- cbn. lia.
+        * match goal with |- context [enqueue ?x i c id ?tc] =>
+            destruct (enqueue_shape x i c id tc _ E1) as (k' & Sk & Hk); [rewrite R1; lia|] end.
+          exists k'. split; [eapply SN_trans; [exact S1|]; eapply SN_frame; [|exact Sk]; reflexivity|].
+          rewrite R1 in Hk. cbn [rankN]. lia.
+    - left. unfold poll_call. rewrite Ec, Hp. auto.
+    - (* PAssigned *)
+      right; right. unfold poll_call. rewrite Ec, Hp. destruct (rx_closed s).
+      + eexists. split; [eapply SN_frame; [|apply fail_shutdown_shape; exact Ec]; reflexivity|].
+        cbn. lia.
+      + destruct (enqueue_shape s i c (c_id c)
+                    {| tc_tid := tc_tid (c_tc c); tc_sid := c_id c; tc_sampled := tc_sampled (c_tc c) |} _ Ec)
+          as (k' & Sk & Hk); [rewrite Hp; cbn; lia|].
+        exists k'. rewrite Hp in Hk. auto.
+    - (* PAcqClosed *)
+      right; right. unfold poll_call. rewrite Ec, Hp.
+      eexists. split; [apply fail_shutdown_shape; exact Ec|]. cbn. lia.
+    - (* PAwaiting *)
+      unfold poll_call. rewrite Ec, Hp.
+      destruct (poll_slot_shape s i (c_id c) _ Ec) as [(H & Hv & Ht)|H].
+      + left. auto.
+      + right; right. eexists. split; [exact H|]. cbn. lia.
+    - right; left. unfold poll_call. rewrite Ec, Hp. auto.
+    - right; left. unfold poll_call. rewrite Ec, Hp. auto.
+    - right; left. unfold poll_call. rewrite Ec, Hp. auto.
+  Qed.
+
+  Lemma poll_call_none s i : nth_error (calls s) i = None -> poll_call s i = (CNothing, s).
+  Proof. intro E. unfold poll_call. rewrite E. reflexivity. Qed.
+
+  Lemma PM_SN s s' i k k' :
+    nth_error (calls s) i = Some k -> SN s s' i k' -> rankN (c_phase k) <= rankN (c_phase k') -> PM s s'.
+  Proof.
+    unfold SN. intros E S H. unfold PM. rewrite S. split; [apply set_nth_length|]. intros j k1 k2 E1 E2.
+    apply nth_set_nth_inv in E2. destruct E2 as [[_ E2]|[-> [-> _]]].
+    - rewrite E1 in E2. injection E2 as <-. lia.
+    - rewrite E in E1. injection E1 as <-. exact H.
+  Qed.
+
+  Lemma PM_poll_call s i : PM s (snd (poll_call s i)).
+  Proof.
+    destruct (nth_error (calls s) i) as [c|] eqn:Ec; [|rewrite (poll_call_none _ _ Ec); apply PM_refl].
+    destruct (poll_call_shape s i c Ec) as [[H _]|[[H _]|(k' & Sk & Hk)]];
+      try (rewrite H; apply PM_refl).
+    eapply PM_SN; [exact Ec|exact Sk|lia].
+  Qed.
+
+  Lemma poll_call_other s i j : j <> i -> nth_error (calls (snd (poll_call s i))) j = nth_error (calls s) j.
+  Proof.
+    intro Hn. destruct (nth_error (calls s) i) as [c|] eqn:Ec; [|rewrite (poll_call_none _ _ Ec); reflexivity].
+    destruct (poll_call_shape s i c Ec) as [[H _]|[[H _]|(k' & Sk & Hk)]];
+      try (rewrite H; reflexivity).
+    rewrite Sk. apply nth_error_set_nth_other. congruence.
+  Qed.
+
+  (* ---------------------------------------------------------------- poll_calls *)
+  Definition PE s s' : Prop :=
+    forall j k k', nth_error (calls s) j = Some k -> nth_error (calls s') j = Some k' ->
+                   c_phase k' = c_phase k.
+
+  Lemma PM_nth s s' j k : PM s s' -> nth_error (calls s) j = Some k -> exists k', nth_error (calls s') j = Some k'.
+  Proof.
+    intros [L _] E. destruct (nth_error (calls s') j) eqn:E'; [eauto|].
+    apply nth_error_None in E'. assert (nth_error (calls s) j <> None) by congruence.
+    apply nth_error_Some in H. lia.
+  Qed.
+  Lemma PM_nth_back s s' j k' : PM s s' -> nth_error (calls s') j = Some k' -> exists k, nth_error (calls s) j = Some k.
+  Proof.
+    intros [L _] E. destruct (nth_error (calls s) j) eqn:E'; [eauto|].
+    apply nth_error_None in E'. assert (nth_error (calls s') j <> None) by congruence.
+    apply nth_error_Some in H. lia.
+  Qed.
+
+  Lemma PE_split s s1 s2 : PM s s1 -> PM s1 s2 -> PE s s2 -> PE s s1 /\ PE s1 s2.
+  Proof.
+    intros P1 P2 E. split.
+    - intros j k k1 Ek Ek1. destruct (PM_nth _ _ _ _ P2 Ek1) as (k2 & Ek2).
+      pose proof (proj2 P1 _ _ _ Ek Ek1). pose proof (proj2 P2 _ _ _ Ek1 Ek2).
+      pose proof (E _ _ _ Ek Ek2) as X. apply rankN_inj. rewrite X in H0. apply N.le_antisymm; assumption.
+    - intros j k1 k2 Ek1 Ek2. destruct (PM_nth_back _ _ _ _ P1 Ek1) as (k & Ek).
+      pose proof (proj2 P1 _ _ _ Ek Ek1). pose proof (proj2 P2 _ _ _ Ek1 Ek2).
+      pose proof (E _ _ _ Ek Ek2) as X. apply rankN_inj. rewrite X. rewrite X in H0.
+      apply N.le_antisymm; [exact H|exact H0].
+  Qed.
+
+  Definition quiet_call s (k : call) : Prop :=
+    c_phase k = PAcquiring \/
+    (c_phase k = PAwaiting /\ sl_val (get_slot s (c_id k)) = None /\ sl_tx_gone (get_slot s (c_id k)) = false).
+
+  Notation pcalls := (poll_calls (T := T)).
+
+  Lemma poll_calls_step s i n acc :
+    pcalls s i (S n) acc =
+    if match nth_error (calls s) i with Some c => is_live (c_phase c) | None => false end
+    then let '(r, s1) := poll_call s i in
+         pcalls s1 (S i) n (match r with CDone o => acc ++ [(i, o)] | _ => acc end)
+    else pcalls s (S i) n acc.
+  Proof. reflexivity. Qed.
+
+  Lemma PM_poll_calls n : forall s i acc, PM s (fst (pcalls s i n acc)).
+  Proof.
+    induction n as [|n IH]; intros s i acc; [apply PM_refl|]. rewrite poll_calls_step.
+    destruct (match nth_error (calls s) i with Some c => is_live (c_phase c) | None => false end); [|apply IH].
+    pose proof (PM_poll_call s i) as P. destruct (poll_call s i) as [r s1]. cbn [snd] in P.
+    eapply PM_trans; [exact P|apply IH].
+  Qed.
+
+  Lemma Inv_poll_calls n : forall s i acc, Inv s -> NW s -> Inv (fst (pcalls s i n acc)).
+  Proof.
+    induction n as [|n IH]; intros s i acc I Hnw; [exact I|]. rewrite poll_calls_step.
+    destruct (match nth_error (calls s) i with Some c => is_live (c_phase c) | None => false end);
+      [|apply IH; assumption].
+    pose proof (poll_call_UI s i (iv_x _ I) (iv_l _ I) Hnw) as U. pose proof (UFrame_poll_call s i) as F.
+    pose proof (PM_poll_call s i) as P.
+    destruct (poll_call s i) as [r s1]. cbn [snd] in *.
+    apply IH; [eapply Inv_UI; eassumption|]. unfold NW. rewrite (proj1 P). exact Hnw.
+  Qed.
+
+  Lemma poll_calls_quiet n : forall s i acc s2 dn,
+    pcalls s i n acc = (s2, dn) -> PE s s2 ->
+    s2 = s /\ dn = acc /\
+    forall j k, (i <= j < i + n)%nat -> nth_error (calls s) j = Some k ->
+                is_live (c_phase k) = true -> quiet_call s k.
+  Proof.
+    induction n as [|n IH]; intros s i acc s2 dn H E.
+    - cbn in H. injection H as <- <-. repeat split. intros j k Hj. lia.
+    - rewrite poll_calls_step in H.
+      destruct (nth_error (calls s) i) as [c|] eqn:Ec.
+      + destruct (is_live (c_phase c)) eqn:Hl.
+        * pose proof (PM_poll_call s i) as P1.
+          destruct (poll_call_shape s i c Ec) as [[Hq Hc]|[[Hq Hc]|(k' & Sk & Hk)]].
+          -- rewrite Hq in H. destruct (IH _ _ _ _ _ H E) as (-> & -> & Hall).
+             repeat split. intros j k Hj Ek Hlk.
+             destruct (Nat.eq_dec j i) as [->|Hn]; [|apply Hall; [lia|exact Ek|exact Hlk]].
+             rewrite Ec in Ek. injection Ek as <-. exact Hc.
+          -- congruence.
+          -- exfalso. destruct (poll_call s i) as [r s1] eqn:Ep. cbn [snd] in *.
+             pose proof (PM_poll_calls n s1 (S i) (match r with CDone o => acc ++ [(i, o)] | _ => acc end)) as P2.
+             rewrite H in P2. cbn [fst] in P2.
+             destruct (PE_split _ _ _ P1 P2 E) as [E1 _].
+             pose proof (E1 i c k' Ec (SN_nth _ _ _ _ _ Ec Sk)) as X. rewrite X in Hk. lia.
+        * destruct (IH _ _ _ _ _ H E) as (-> & -> & Hall).
+          repeat split. intros j k Hj Ek Hlk.
+          destruct (Nat.eq_dec j i) as [->|Hn]; [congruence|apply Hall; [lia|exact Ek|exact Hlk]].
+      + destruct (IH _ _ _ _ _ H E) as (-> & -> & Hall).
+        repeat split. intros j k Hj Ek Hlk.
+        destruct (Nat.eq_dec j i) as [->|Hn]; [congruence|apply Hall; [lia|exact Ek|exact Hlk]].
+  Qed.
 End WInv.
